@@ -18,7 +18,11 @@ PROPS = {
         'level': 'proof',
         'explanation': 'C02_tiling: for every chain, min depth, max depth (absent or >= max(min,1)) and break_halves, '
                        'parse_comps returns pieces that tile exactly the truncated region (point-wise, exists-unique) and meet the depth rules; '
+                       'C02_extracted_blocks_valid: the hypothesis is met on every call the tract parser makes -- for ANY text, every block cut out by aliquot_unpacker_regex is a concatenation of '
+                       'clean halves/quarters (Engine/RegexLang.v) in which single_aliquot_unpacker_regex finds at least one component (Engine/RegexComplete.v) and only the eight documented ones, '
+                       'so the component list is a valid chain; '
                        'tied to aliquot_parse.py by regenerated tables + exhaustive differential execution.',
+        'build_timeout': 2400,
     },
     'C12': {
         'group': 'trs',
